@@ -66,7 +66,17 @@ def main(argv=None):
                 print("replay: case no longer violates property", prop)
             rc = core.finish(ctx)
             return rc
-        adapter.run(ctx)
+        try:
+            adapter.run(ctx)
+        except (core.MachineryError, tlc.TLCError) as e:
+            # A tree that breaks the property badly can also trip a vacuity guard or a self-test that
+            # needs clean records.  Violations already established on the real code (judged by TLC) stand;
+            # without any, this is a failure of the machinery (exit 2).
+            if not ctx.violations:
+                raise
+            print("MACHINERY-NOTE property=%s: a later stage of the check stopped (%s); reporting the %d violation(s) "
+                  "established before it" % (prop, str(e).splitlines()[0][:300], len(ctx.violations)))
+            ctx.note(stopped_after_violations=str(e)[:600])
         if ctx.only:
             ctx.replaying = True   # partial run: do not overwrite evidence
         return core.finish(ctx)
